@@ -24,6 +24,7 @@ def run(tier, replay=None):
         ("MC_Transport", "XF_RearmPerRead.cfg", {"workers": 2}, "fail"),
         ("MC_Transport", "XF_NoCloseOnError.cfg", {"workers": 2}, "fail"),
         ("MC_Transport", "XF_DeadlineBeforeLock.cfg", {"workers": 2}, "fail"),
+        ("MC_Transport", "XF_RearmAfterConnect.cfg", {"workers": 2}, "fail"),
         ("MC_Discovery", "MC_Discovery.cfg", {"workers": 8, "heap": "4g"}, "pass"),
         ("MC_Discovery", "XF_DiscoveryHandOff.cfg", {"workers": 2}, "fail"),
         ("MC_Discovery", "XF_DiscoveryRearm.cfg", {"workers": 2}, "fail"),
